@@ -160,6 +160,13 @@ def expanded(repo: Repo, f: FunctionInfo, depth: int = 2, keep=()):
         return hit[1]
     root = clone(f.node)
     counter = [0]
+    fn_root_holder = [root]
+
+    def _anc(n):
+        cur = getattr(n, "_parent", None)
+        while cur is not None and cur is not root:
+            yield cur
+            cur = getattr(cur, "_parent", None)
 
     def callee_of(call, g: FunctionInfo):
         h = None
@@ -219,6 +226,15 @@ def expanded(repo: Repo, f: FunctionInfo, depth: int = 2, keep=()):
             arg = env[p_]
             if isinstance(arg, ast.Name) and arg.id == p_:
                 continue
+            if isinstance(arg, ast.Name) and arg.id not in ("self", "cls") and p_ not in ("self", "cls") and arg.id not in stored and arg.id not in params:
+                # the argument is a local of the caller: the callee's parameter IS that local, unless the callee re-binds the parameter and
+                # the caller still reads its own variable afterwards (then the two must stay apart)
+                rebinds = p_ in stored
+                later = any(isinstance(x, ast.Name) and x.id == arg.id and isinstance(x.ctx, ast.Load) and getattr(x, "lineno", 0) > getattr(call, "end_lineno", getattr(call, "lineno", 0))
+                            for x in ast.walk(fn_root_holder[0])) or any(isinstance(a_, (ast.For, ast.While)) for a_ in _anc(call))
+                if not (rebinds and later):
+                    ren[p_] = arg.id
+                    continue
             if p_ in ("self", "cls") and isinstance(arg, ast.Name) and arg.id in ("self", "cls"):
                 if arg.id != p_:
                     ren[p_] = arg.id
@@ -245,6 +261,7 @@ def expanded(repo: Repo, f: FunctionInfo, depth: int = 2, keep=()):
         return pre, body
 
     def process(fn_root, g: FunctionInfo, d: int):
+        fn_root_holder[0] = fn_root
         if d <= 0:
             return
         changed = True
@@ -252,6 +269,7 @@ def expanded(repo: Repo, f: FunctionInfo, depth: int = 2, keep=()):
         while changed and rounds < 3:
             changed = False
             rounds += 1
+            set_parents(fn_root, None)
             caller_names = {x.id for x in ast.walk(fn_root) if isinstance(x, ast.Name)} | {a.arg for a in fn_root.args.args}
             for owner in list(ast.walk(fn_root)):
                 if owner is not fn_root and isinstance(owner, (ast.FunctionDef, ast.AsyncFunctionDef, ast.Lambda, ast.ClassDef)):
